@@ -29,7 +29,7 @@ class CheckC09(core.Check):
 
     def plan(self):
         rnd = random.Random(self.seed * 198491317 + 9)
-        n = 6000 if self.tier == "quick" else 200000
+        n = 40000 if self.tier == "quick" else 1500000
         return [(rnd.choice(CIPHERS), rnd.choice(["D", "R", "DR"]), rnd.choice(["tr", "tr", "sl"]), rnd.choice(["NN", "XX", "N", "IK"]), rnd.getrandbits(32)) for _ in range(n)]
 
     def build(self, desc):
